@@ -166,6 +166,22 @@ static void op_ecdsa_sign(void) {
     if (!ret && !all_zero(sig.data, 64)) out_int(-77);
     out_sig(&sig);
 }
+static void op_ecdsa_sign_alias(void) {
+    /* #kind msg32 seckey32 data|- #where : like ecdsa_sign, but one input lives INSIDE the output object (where = 1 message at
+       sig.data, 2 secret key at sig.data+32, 3 extra data at sig.data+16); the result must not depend on that */
+    secp256k1_ecdsa_signature sig; int ret; unsigned char data[33] = {0}; long long where = I(4); const unsigned char *m = BN(1, 32), *k = BN(2, 32); void *nd;
+    memset(&sig, 0xAA, sizeof(sig));
+    if (!is_none(3)) memcpy(data, B(3), L(3) < 33 ? L(3) : 33);
+    if (I(0) >= 2 && is_none(3)) data[32] = 255;
+    nd = (is_none(3) && I(0) < 2) ? NULL : data;
+    if (where == 1) { memcpy(sig.data, m, 32); m = sig.data; }
+    else if (where == 2) { memcpy(sig.data + 32, k, 32); k = sig.data + 32; }
+    else if (where == 3 && nd != NULL && I(0) < 2) { memcpy(sig.data + 16, data, 32); nd = sig.data + 16; }
+    ret = secp256k1_ecdsa_sign(CTX, &sig, m, k, nonce_kind(I(0)), nd);
+    out_int(ret);
+    if (!ret && !all_zero(sig.data, 64)) out_int(-77);
+    out_sig(&sig);
+}
 static void op_ecdsa_sign_recoverable(void) {
     secp256k1_ecdsa_recoverable_signature sig; int ret, recid = -1; unsigned char data[33] = {0}, c[65]; memset(&sig, 0xAA, sizeof(sig));
     if (!is_none(3)) memcpy(data, B(3), L(3) < 33 ? L(3) : 33);
@@ -210,6 +226,13 @@ static int test_schnorr_nonce_fail(unsigned char *nonce32, const unsigned char *
 static void op_schnorrsig_sign32(void) {
     secp256k1_keypair kp; unsigned char sig[64]; int ret; kp_from_canon(&kp, BN(1, 96)); memset(sig, 0x55, 64);
     ret = secp256k1_schnorrsig_sign32(CTX, sig, BN(0, 32), &kp, is_none(2) ? NULL : BN(2, 32)); out_int(ret); out_bytes(sig, 64);
+}
+static void op_schnorrsig_sign32_alias(void) {
+    /* msg32 kp aux|- #where : where = 1 message at sig64, 2 aux_rand at sig64+32 */
+    secp256k1_keypair kp; unsigned char sig[64]; int ret; const unsigned char *m = BN(0, 32), *aux = is_none(2) ? NULL : BN(2, 32);
+    kp_from_canon(&kp, BN(1, 96)); memset(sig, 0x55, 64);
+    if (I(3) == 1) { memcpy(sig, m, 32); m = sig; } else if (I(3) == 2 && aux) { memcpy(sig + 32, aux, 32); aux = sig + 32; }
+    ret = secp256k1_schnorrsig_sign32(CTX, sig, m, &kp, aux); out_int(ret); out_bytes(sig, 64);
 }
 static void op_schnorrsig_sign_custom(void) {
     /* msg kp magic|- #kind ndata|- */
@@ -264,7 +287,7 @@ static const op_entry ops_core[] = {
     OP(ecdsa_signature_serialize_der), OP(ecdsa_signature_serialize_compact), OP(ecdsa_signature_normalize),
     OP(ecdsa_verify), OP(ecdsa_sign), OP(ecdsa_sign_recoverable), OP(recoverable_parse_compact),
     OP(recoverable_serialize_compact), OP(recoverable_convert), OP(ecdsa_recover),
-    OP(schnorrsig_sign32), OP(schnorrsig_sign_custom), OP(nonce_function_bip340), OP(schnorrsig_verify),
+    OP(ecdsa_sign_alias), OP(schnorrsig_sign32_alias), OP(schnorrsig_sign32), OP(schnorrsig_sign_custom), OP(nonce_function_bip340), OP(schnorrsig_verify),
     OP(sha256), OP(hmac_sha256), OP(tagged_sha256), OP(rfc6979),
     {NULL, NULL}
 };
